@@ -244,29 +244,29 @@ theorem firstLeaf_run (env : Prog.Env) (raw : Bytes) (pool n : Nat) :
   · simp only [hn, if_false, Prog.run_bind, Prog.run_query]
     cases env.answer (.jwsChain raw 0 pool) <;> rfl
 
-/-- the run of `unmarshalBlob` as a pure function of the environment -/
-theorem unmarshalBlob_run (env : Prog.Env) (raw : Bytes) (opts : List Fido.Pool) :
-    Prog.run env (Fido.unmarshalBlob raw opts) =
+/-- the run of `unmarshalBlobOpaque` as a pure function of the environment -/
+theorem unmarshalBlobOpaque_run (env : Prog.Env) (raw : Bytes) (pool : Nat) :
+    Prog.run env (Fido.unmarshalBlobOpaque raw pool) =
       match env.answer (.jwsHeaders raw) with
       | .nat n =>
-        match Prog.run env (Fido.headerChains raw (Fido.configPool opts).code n 0) with
+        match Prog.run env (Fido.headerChains raw pool n 0) with
         | none => none
         | some _ =>
-          match (if n = 0 then none else chainLeaf env raw (Fido.configPool opts).code 0) with
+          match (if n = 0 then none else chainLeaf env raw pool 0) with
           | none => none
           | some leaf =>
             match env.answer (.jwsClaims raw leaf) with
             | .bytes payload => some payload
             | _ => none
       | _ => none := by
-  unfold Fido.unmarshalBlob
+  unfold Fido.unmarshalBlobOpaque
   simp only [Prog.run_bind, Prog.run_query]
   cases env.answer (.jwsHeaders raw) <;> try rfl
   rename_i n
   simp only [Prog.run_bind]
-  cases Prog.run env (Fido.headerChains raw (Fido.configPool opts).code n 0) <;> try rfl
+  cases Prog.run env (Fido.headerChains raw pool n 0) <;> try rfl
   simp only [Prog.run_bind, firstLeaf_run]
-  cases (if n = 0 then none else chainLeaf env raw (Fido.configPool opts).code 0) <;> try rfl
+  cases (if n = 0 then none else chainLeaf env raw pool 0) <;> try rfl
   rename_i leaf
   simp only [Prog.run_bind, Prog.run_query]
   cases env.answer (.jwsClaims raw leaf) <;> rfl
@@ -274,28 +274,28 @@ theorem unmarshalBlob_run (env : Prog.Env) (raw : Bytes) (opts : List Fido.Pool)
 
 /-- a payload is returned iff the BLOB parses with n ≥ 1 headers, EVERY header's chain validates against the CONFIGURED pool, and the
     signature/claims check under the leaf of header 0's first chain yields exactly that payload -/
-theorem blob_iff (env : Prog.Env) (raw : Bytes) (opts : List Fido.Pool) (payload : Bytes) :
-    Prog.run env (Fido.unmarshalBlob raw opts) = some payload ↔
+theorem blobOpaque_iff (env : Prog.Env) (raw : Bytes) (pool : Nat) (payload : Bytes) :
+    Prog.run env (Fido.unmarshalBlobOpaque raw pool) = some payload ↔
       ∃ n, env.answer (.jwsHeaders raw) = .nat n ∧ 0 < n ∧
-        (∀ i, i < n → ∃ leaf, env.answer (.jwsChain raw i (Fido.configPool opts).code) = .bytes leaf) ∧
-        ∃ leaf0, env.answer (.jwsChain raw 0 (Fido.configPool opts).code) = .bytes leaf0 ∧
+        (∀ i, i < n → ∃ leaf, env.answer (.jwsChain raw i pool) = .bytes leaf) ∧
+        ∃ leaf0, env.answer (.jwsChain raw 0 pool) = .bytes leaf0 ∧
           env.answer (.jwsClaims raw leaf0) = .bytes payload := by
-  rw [unmarshalBlob_run]
+  rw [unmarshalBlobOpaque_run]
   constructor
   · intro h
     cases hh : env.answer (.jwsHeaders raw) <;> rw [hh] at h <;> try (cases h; done)
     rename_i n
     dsimp only at h
-    cases hc : Prog.run env (Fido.headerChains raw (Fido.configPool opts).code n 0) with
+    cases hc : Prog.run env (Fido.headerChains raw pool n 0) with
     | none => rw [hc] at h; cases h
     | some r =>
       rw [hc] at h
       dsimp only at h
-      have hall := (headerChains_some env raw (Fido.configPool opts).code n 0).1 ⟨r, hc⟩
+      have hall := (headerChains_some env raw pool n 0).1 ⟨r, hc⟩
       by_cases hn : n = 0
       · rw [if_pos hn] at h; cases h
       · rw [if_neg hn] at h
-        cases hl : chainLeaf env raw (Fido.configPool opts).code 0 with
+        cases hl : chainLeaf env raw pool 0 with
         | none => rw [hl] at h; cases h
         | some leaf0 =>
           rw [hl] at h
@@ -307,7 +307,7 @@ theorem blob_iff (env : Prog.Env) (raw : Bytes) (opts : List Fido.Pool) (payload
   · rintro ⟨n, hh, hn, hall, leaf0, hl, hcl⟩
     rw [hh]
     dsimp only
-    obtain ⟨r, hr⟩ := (headerChains_some env raw (Fido.configPool opts).code n 0).2
+    obtain ⟨r, hr⟩ := (headerChains_some env raw pool n 0).2
       fun j _ h2 => hall j (by omega)
     rw [hr]
     dsimp only
@@ -316,43 +316,237 @@ theorem blob_iff (env : Prog.Env) (raw : Bytes) (opts : List Fido.Pool) (payload
     rw [hcl]
 
 /-- consequences named in the property -/
-theorem blob_reject_unparsable (env : Prog.Env) (raw : Bytes) (opts : List Fido.Pool)
-    (h : ∀ n, env.answer (.jwsHeaders raw) ≠ .nat n) : Prog.run env (Fido.unmarshalBlob raw opts) = none := by
-  cases hr : Prog.run env (Fido.unmarshalBlob raw opts) with
+theorem blobOpaque_reject_unparsable (env : Prog.Env) (raw : Bytes) (pool : Nat)
+    (h : ∀ n, env.answer (.jwsHeaders raw) ≠ .nat n) : Prog.run env (Fido.unmarshalBlobOpaque raw pool) = none := by
+  cases hr : Prog.run env (Fido.unmarshalBlobOpaque raw pool) with
   | none => rfl
   | some payload =>
-    obtain ⟨n, hn, _⟩ := (blob_iff env raw opts payload).1 hr
+    obtain ⟨n, hn, _⟩ := (blobOpaque_iff env raw pool payload).1 hr
     exact absurd hn (h n)
 
-theorem blob_reject_bad_chain (env : Prog.Env) (raw : Bytes) (opts : List Fido.Pool) (n i : Nat)
+theorem blobOpaque_reject_bad_chain (env : Prog.Env) (raw : Bytes) (pool : Nat) (n i : Nat)
     (hn : env.answer (.jwsHeaders raw) = .nat n) (hi : i < n)
-    (h : ∀ leaf, env.answer (.jwsChain raw i (Fido.configPool opts).code) ≠ .bytes leaf) :
-    Prog.run env (Fido.unmarshalBlob raw opts) = none := by
-  cases hr : Prog.run env (Fido.unmarshalBlob raw opts) with
+    (h : ∀ leaf, env.answer (.jwsChain raw i pool) ≠ .bytes leaf) :
+    Prog.run env (Fido.unmarshalBlobOpaque raw pool) = none := by
+  cases hr : Prog.run env (Fido.unmarshalBlobOpaque raw pool) with
   | none => rfl
   | some payload =>
-    obtain ⟨n', hn', _, hall, _⟩ := (blob_iff env raw opts payload).1 hr
+    obtain ⟨n', hn', _, hall, _⟩ := (blobOpaque_iff env raw pool payload).1 hr
     rw [hn] at hn'
     cases hn'
     obtain ⟨leaf, hleaf⟩ := hall i hi
     exact absurd hleaf (h leaf)
 
-theorem blob_reject_no_headers (env : Prog.Env) (raw : Bytes) (opts : List Fido.Pool)
-    (hn : env.answer (.jwsHeaders raw) = .nat 0) : Prog.run env (Fido.unmarshalBlob raw opts) = none := by
-  cases hr : Prog.run env (Fido.unmarshalBlob raw opts) with
+theorem blobOpaque_reject_no_headers (env : Prog.Env) (raw : Bytes) (pool : Nat)
+    (hn : env.answer (.jwsHeaders raw) = .nat 0) : Prog.run env (Fido.unmarshalBlobOpaque raw pool) = none := by
+  cases hr : Prog.run env (Fido.unmarshalBlobOpaque raw pool) with
   | none => rfl
   | some payload =>
-    obtain ⟨n', hn', hpos, _⟩ := (blob_iff env raw opts payload).1 hr
+    obtain ⟨n', hn', hpos, _⟩ := (blobOpaque_iff env raw pool payload).1 hr
     rw [hn] at hn'
     cases hn'
     exact absurd hpos (Nat.lt_irrefl 0)
 
-theorem blob_reject_bad_signature (env : Prog.Env) (raw : Bytes) (opts : List Fido.Pool)
-    (h : ∀ leaf p, env.answer (.jwsClaims raw leaf) ≠ .bytes p) : Prog.run env (Fido.unmarshalBlob raw opts) = none := by
+theorem blobOpaque_reject_bad_signature (env : Prog.Env) (raw : Bytes) (pool : Nat)
+    (h : ∀ leaf p, env.answer (.jwsClaims raw leaf) ≠ .bytes p) : Prog.run env (Fido.unmarshalBlobOpaque raw pool) = none := by
+  cases hr : Prog.run env (Fido.unmarshalBlobOpaque raw pool) with
+  | none => rfl
+  | some payload =>
+    obtain ⟨_, _, _, _, leaf0, _, hcl⟩ := (blobOpaque_iff env raw pool payload).1 hr
+    exact absurd hcl (h leaf0 payload)
+
+
+/-! ### the compact serialisation through the Lean JWS model -/
+
+/-- what makes `UnmarshalMetadataBLOBPayload` return `payload` under the configured pool (code `pool`).
+    * compact serialisation: the token parses (`Jws.parse`), every `x5c` entry is a certificate, there is at least one, the first one
+      validates against the CONFIGURED pool with the others as intermediates, go-jose reaches the signature check and the signature
+      verifies under that first certificate's key, and the PAYLOAD SEGMENT OF THE TOKEN decodes to `payload`;
+    * the forms the Lean model does not cover: the dependency's own view, as before. -/
+inductive BlobOK (env : Prog.Env) (raw : Bytes) (pool : Nat) (payload : Bytes) : Prop where
+  | compact (c : Jws.Compact) (leaf : Bytes) (rest : List Bytes)
+      (parsed : Jws.parse raw = .ok c)
+      (chain : c.x5c = leaf :: rest)
+      (certs : ∀ d ∈ c.x5c, ∃ cv, env.answer (.x509Parse d) = .cert cv)
+      (trusted : env.answer (.x509VerifyPool leaf rest pool) = .bool true)
+      (verifiable : c.verifiable = true)
+      (signed : env.answer (.jwsVerify raw leaf) = .bool true)
+      (decoded : env.answer (.blobPayload c.payload) = .bytes payload)
+  | opaque (n : Nat) (leaf0 : Bytes)
+      (unmodelled : Jws.parse raw = .unmodelled)
+      (headers : env.answer (.jwsHeaders raw) = .nat n) (pos : 0 < n)
+      (chains : ∀ i, i < n → ∃ leaf, env.answer (.jwsChain raw i pool) = .bytes leaf)
+      (first : env.answer (.jwsChain raw 0 pool) = .bytes leaf0)
+      (claims : env.answer (.jwsClaims raw leaf0) = .bytes payload)
+
+theorem run_askBool (env : Prog.Env) (q : Ask) :
+    Prog.run env (Fido.askBool q) = true ↔ env.answer q = .bool true := by
+  simp only [Fido.askBool, Prog.run_bind, Prog.run_query]
+  cases env.answer q <;> simp
+
+theorem run_ite {α} (env : Prog.Env) (c : Prop) [Decidable c] (p q : Prog α) :
+    Prog.run env (if c then p else q) = if c then Prog.run env p else Prog.run env q := by
+  split <;> rfl
+
+theorem parseChain_run (env : Prog.Env) (ds : List Bytes) :
+    Prog.run env (Fido.parseChain ds) = true ↔ ∀ d ∈ ds, ∃ cv, env.answer (.x509Parse d) = .cert cv := by
+  induction ds with
+  | nil => simp [Fido.parseChain]
+  | cons der rest ih =>
+    simp only [Fido.parseChain, Prog.run_bind, Prog.run_query, List.mem_cons, forall_eq_or_imp]
+    cases h : env.answer (.x509Parse der) <;> simp [ih]
+
+/-- the compact branch -/
+theorem blobCompact_iff (env : Prog.Env) (raw : Bytes) (c : Jws.Compact) (pool : Nat) (payload : Bytes) :
+    Prog.run env (Fido.unmarshalBlobCompact raw c pool) = some payload ↔
+      ∃ leaf rest, c.x5c = leaf :: rest ∧ (∀ d ∈ c.x5c, ∃ cv, env.answer (.x509Parse d) = .cert cv) ∧
+        env.answer (.x509VerifyPool leaf rest pool) = .bool true ∧ c.verifiable = true ∧
+        env.answer (.jwsVerify raw leaf) = .bool true ∧ env.answer (.blobPayload c.payload) = .bytes payload := by
+  simp only [Fido.unmarshalBlobCompact, Prog.run_bind, run_ite, Prog.run_pure]
+  rw [← parseChain_run]
+  cases hp : Prog.run env (Fido.parseChain c.x5c) with
+  | false => simp
+  | true =>
+    cases hx : c.x5c with
+    | nil => simp
+    | cons leaf rest =>
+      simp only [Prog.run_bind, run_ite, Prog.run_pure, Prog.run_query, List.cons.injEq]
+      constructor
+      · intro hr
+        by_cases hv : Prog.run env (Fido.askBool (.x509VerifyPool leaf rest pool)) = true
+        · simp only [hv, Bool.not_true, Bool.false_eq_true, if_false] at hr
+          by_cases hvf : c.verifiable = true
+          · simp only [hvf, Bool.not_true, Bool.false_eq_true, if_false] at hr
+            by_cases hs : Prog.run env (Fido.askBool (.jwsVerify raw leaf)) = true
+            · simp only [hs, Bool.not_true, Bool.false_eq_true, if_false] at hr
+              refine ⟨leaf, rest, ⟨rfl, rfl⟩, trivial, (run_askBool _ _).1 hv, hvf, (run_askBool _ _).1 hs, ?_⟩
+              cases hb : env.answer (.blobPayload c.payload) <;> rw [hb] at hr <;> simp at hr
+              rw [hr]
+            · simp [hs] at hr
+          · simp [hvf] at hr
+        · simp [hv] at hr
+      · rintro ⟨leaf', rest', ⟨rfl, rfl⟩, -, hv, hvf, hs, hb⟩
+        rw [← run_askBool] at hv hs
+        simp [hv, hvf, hs, hb]
+
+/-- a payload is returned iff `BlobOK` under the LAST configured pool (the default root when no option is given) -/
+theorem blob_iff (env : Prog.Env) (raw : Bytes) (opts : List Fido.Pool) (payload : Bytes) :
+    Prog.run env (Fido.unmarshalBlob raw opts) = some payload ↔ BlobOK env raw (Fido.configPool opts).code payload := by
+  unfold Fido.unmarshalBlob
+  simp only []
+  cases hp : Jws.parse raw with
+  | error =>
+    simp only [Prog.run_pure, reduceCtorEq, false_iff]
+    intro h
+    cases h with
+    | compact c leaf rest parsed => rw [hp] at parsed; cases parsed
+    | «opaque» n leaf0 unmodelled => rw [hp] at unmodelled; cases unmodelled
+  | unmodelled =>
+    simp only [blobOpaque_iff]
+    constructor
+    · rintro ⟨n, hh, hn, hall, leaf0, hl, hcl⟩
+      exact BlobOK.opaque n leaf0 hp hh hn hall hl hcl
+    · intro h
+      cases h with
+      | compact c leaf rest parsed => rw [hp] at parsed; cases parsed
+      | «opaque» n leaf0 _ hh hn hall hl hcl => exact ⟨n, hh, hn, hall, leaf0, hl, hcl⟩
+  | ok c =>
+    simp only [blobCompact_iff]
+    constructor
+    · rintro ⟨leaf, rest, hx, hc, hv, hvf, hs, hb⟩
+      exact BlobOK.compact c leaf rest hp hx hc hv hvf hs hb
+    · intro h
+      cases h with
+      | compact c' leaf rest parsed hx hc hv hvf hs hb =>
+        rw [hp] at parsed; cases parsed
+        exact ⟨leaf, rest, hx, hc, hv, hvf, hs, hb⟩
+      | «opaque» n leaf0 unmodelled => rw [hp] at unmodelled; cases unmodelled
+
+/-- the payload returned is the decoding of the token's own payload segment, the segment the verified signature covers
+    (`Compact.signingInput` = base64url(protected) "." base64url(payload), `C04Jws.signingInput_inj`) -/
+theorem blob_payload_is_signed (env : Prog.Env) (raw : Bytes) (opts : List Fido.Pool) (payload : Bytes) (c : Jws.Compact)
+    (hp : Jws.parse raw = .ok c) (h : Prog.run env (Fido.unmarshalBlob raw opts) = some payload) :
+    env.answer (.blobPayload c.payload) = .bytes payload ∧
+    ∃ leaf rest, c.x5c = leaf :: rest ∧ env.answer (.jwsVerify raw leaf) = .bool true ∧
+      env.answer (.x509VerifyPool leaf rest (Fido.configPool opts).code) = .bool true := by
+  rw [blob_iff] at h
+  cases h with
+  | compact c' leaf rest parsed hx hc hv hvf hs hb =>
+    rw [hp] at parsed; cases parsed
+    exact ⟨hb, leaf, rest, hx, hs, hv⟩
+  | «opaque» n leaf0 unmodelled => rw [hp] at unmodelled; cases unmodelled
+
+/-- consequences named in the property -/
+theorem blob_reject_unparsable (env : Prog.Env) (raw : Bytes) (opts : List Fido.Pool) (h : Jws.parse raw = .error) :
+    Prog.run env (Fido.unmarshalBlob raw opts) = none := by
   cases hr : Prog.run env (Fido.unmarshalBlob raw opts) with
   | none => rfl
   | some payload =>
-    obtain ⟨_, _, _, _, leaf0, _, hcl⟩ := (blob_iff env raw opts payload).1 hr
-    exact absurd hcl (h leaf0 payload)
+    rw [blob_iff] at hr
+    cases hr with
+    | compact c leaf rest parsed => rw [h] at parsed; cases parsed
+    | «opaque» n leaf0 unmodelled => rw [h] at unmodelled; cases unmodelled
+
+/-- no certificate chain in the protected header -/
+theorem blob_reject_missing_chain (env : Prog.Env) (raw : Bytes) (opts : List Fido.Pool) (c : Jws.Compact)
+    (hp : Jws.parse raw = .ok c) (h : c.x5c = []) : Prog.run env (Fido.unmarshalBlob raw opts) = none := by
+  cases hr : Prog.run env (Fido.unmarshalBlob raw opts) with
+  | none => rfl
+  | some payload =>
+    obtain ⟨_, leaf, rest, hx, _⟩ := blob_payload_is_signed env raw opts payload c hp hr
+    rw [h] at hx; cases hx
+
+/-- the chain does not validate against the configured pool (another root, expired, reordered, a CA constraint violated) -/
+theorem blob_reject_bad_chain (env : Prog.Env) (raw : Bytes) (opts : List Fido.Pool) (c : Jws.Compact) (leaf : Bytes) (rest : List Bytes)
+    (hp : Jws.parse raw = .ok c) (hx : c.x5c = leaf :: rest)
+    (h : env.answer (.x509VerifyPool leaf rest (Fido.configPool opts).code) ≠ .bool true) :
+    Prog.run env (Fido.unmarshalBlob raw opts) = none := by
+  cases hr : Prog.run env (Fido.unmarshalBlob raw opts) with
+  | none => rfl
+  | some payload =>
+    obtain ⟨_, leaf', rest', hx', _, hv⟩ := blob_payload_is_signed env raw opts payload c hp hr
+    rw [hx] at hx'; cases hx'
+    exact absurd hv h
+
+/-- the signature does not verify under the key of the FIRST certificate (altered payload, signature or protected header; signed by
+    another key, including the key of another chain member) -/
+theorem blob_reject_bad_signature (env : Prog.Env) (raw : Bytes) (opts : List Fido.Pool) (c : Jws.Compact) (leaf : Bytes) (rest : List Bytes)
+    (hp : Jws.parse raw = .ok c) (hx : c.x5c = leaf :: rest) (h : env.answer (.jwsVerify raw leaf) ≠ .bool true) :
+    Prog.run env (Fido.unmarshalBlob raw opts) = none := by
+  cases hr : Prog.run env (Fido.unmarshalBlob raw opts) with
+  | none => rfl
+  | some payload =>
+    obtain ⟨_, leaf', rest', hx', hs, _⟩ := blob_payload_is_signed env raw opts payload c hp hr
+    rw [hx] at hx'; cases hx'
+    exact absurd hs h
+
+/-- non-vacuity: the token `base64url({"x5c":["AA=="]}) . base64url({}) . ""` with the dependencies answering positively -/
+def okEnv : Prog.Env := ⟨fun q => match q with
+  | .x509Parse _ => .cert default
+  | .x509VerifyPool .. => .bool true
+  | .jwsVerify .. => .bool true
+  | .blobPayload p => .bytes p
+  | _ => .none⟩
+
+/-- kernel evaluation of the JWS model on the compact example token -/
+theorem compact_parse_aux :
+    (match Jws.parse (Bytes.ofString "eyJ4NWMiOlsiQUE9PSJdfQ.e30.") with
+     | .ok c => c.x5c == [[0]] && c.payload == Bytes.ofString "{}" && c.verifiable
+     | _ => false) = true := by
+  decide +kernel
+
+theorem blob_accepts_compact :
+    Prog.run okEnv (Fido.unmarshalBlob (Bytes.ofString "eyJ4NWMiOlsiQUE9PSJdfQ.e30.") []) = some (Bytes.ofString "{}") := by
+  have hp := compact_parse_aux
+  rw [blob_iff]
+  cases hc : Jws.parse (Bytes.ofString "eyJ4NWMiOlsiQUE9PSJdfQ.e30.") with
+  | ok c =>
+    rw [hc] at hp
+    simp only [Bool.and_eq_true, beq_iff_eq] at hp
+    obtain ⟨⟨hx, hpl⟩, hv⟩ := hp
+    refine BlobOK.compact c [0] [] hc hx (fun d _ => ⟨default, rfl⟩) rfl hv rfl ?_
+    rw [hpl]; rfl
+  | error => rw [hc] at hp; cases hp
+  | unmodelled => rw [hc] at hp; cases hp
 
 end WebAuthn.C15
